@@ -1,0 +1,70 @@
+//go:build verif
+
+// Contracts for contract-based verification (/verif). Comment-only: with or without the
+// build tag "verif" this file adds nothing to the compiled package.
+
+package appctx
+
+// The application context is a monitor over one map.
+//@ monitor applicationContext appCtx
+//@   lock appCtx.mux
+//@   protects m
+//@   ownsmap m
+//@   invariant [map-allocated] appCtx.m != nil
+
+//@ spec ctxOf(c ApplicationContext) *applicationContext = c.(*applicationContext)
+//@ spec othersUnchanged(a *applicationContext, key Key) bool = forall k Key :: k != key ==> (has(a.m, k) == old(has(a.m, k)) && a.m[k] == old(a.m[k]))
+
+//@ func (*applicationContext).Store
+//@   modifies mapof(appCtx.m)
+//@   ensures [stored] has(appCtx.m, key) && appCtx.m[key] == value
+//@   ensures [others-unchanged] othersUnchanged(appCtx, key)
+
+//@ func (*applicationContext).StoreIfNotExists
+//@   modifies mapof(appCtx.m)
+//@   ensures [first-wins] old(has(appCtx.m, key)) ==> r0 == old(appCtx.m[key]) && has(appCtx.m, key) && appCtx.m[key] == old(appCtx.m[key])
+//@   ensures [stores-if-absent] !old(has(appCtx.m, key)) ==> r0 == nil && has(appCtx.m, key) && appCtx.m[key] == value
+//@   ensures [others-unchanged] othersUnchanged(appCtx, key)
+
+//@ func (*applicationContext).Load
+//@   modifies nothing
+//@   ensures [found] has(appCtx.m, key) ==> ok && value == appCtx.m[key]
+//@   ensures [absent] !has(appCtx.m, key) ==> !ok && value == nil
+
+//@ func (*applicationContext).Delete
+//@   modifies mapof(appCtx.m)
+//@   ensures [deleted] !has(appCtx.m, key)
+//@   ensures [others-unchanged] othersUnchanged(appCtx, key)
+
+//@ func (*applicationContext).GetOrDefault
+//@   modifies nothing
+//@   ensures [found] has(appCtx.m, key) ==> r0 == appCtx.m[key]
+//@   ensures [default] !has(appCtx.m, key) ==> r0 == defaultValue
+
+//@ func NewApplicationContext
+//@   modifies nothing
+//@   ensures [fresh-empty] typeis(r0, *applicationContext) && fresh(r0) && (forall k Key :: !has(ctxOf(r0).m, k))
+
+//@ func FromRequest
+//@   modifies nothing
+//@ func LoadResponseSender
+//@   modifies nothing
+//@ func LoadInteropServer
+//@   modifies nothing
+//@ func LoadInitType
+//@   modifies nothing
+//@ func LoadFirstFatalError
+//@   modifies nothing
+//@   ensures [found] found <==> has(ctxOf(appCtx).m, AppCtxFirstFatalErrorKey)
+//@ func LoadInvokeErrorTraceData
+//@   modifies nothing
+
+//@ func StoreInvokeErrorTraceData
+//@   modifies mapof(appCtx.(*applicationContext).m)
+//@   ensures [others-unchanged] othersUnchanged(ctxOf(appCtx), AppCtxInvokeErrorTraceDataKey)
+
+//@ func StoreFirstFatalError
+//@   modifies mapof(appCtx.(*applicationContext).m)
+//@   ensures [first-wins] old(has(ctxOf(appCtx).m, AppCtxFirstFatalErrorKey)) ==> ctxOf(appCtx).m[AppCtxFirstFatalErrorKey] == old(ctxOf(appCtx).m[AppCtxFirstFatalErrorKey])
+//@   ensures [present-after] has(ctxOf(appCtx).m, AppCtxFirstFatalErrorKey)
+//@   ensures [others-unchanged] othersUnchanged(ctxOf(appCtx), AppCtxFirstFatalErrorKey)
